@@ -452,6 +452,26 @@ pub fn generate(tier: &str, seed: u64, only: Option<&str>) -> Vec<Case> {
         }
     }
 
+    // (b2) large frames (several KiB, i.e. many growth steps) arriving in pieces with receives
+    // abandoned in between, alone or followed by a small frame.
+    let nlarge = if thorough { 40 } else { 8 };
+    for kind in &kinds {
+        for i in 0..nlarge {
+            let len = rng.range(3000, if thorough { 40_000 } else { 12_000 });
+            let f = run_frame(kind, len, b'a' + (i % 26) as u8);
+            let frames = if rng.chance(1, 2) { vec![f] } else { vec![f, gen_frame(kind, &mut rng)] };
+            let stream = stream_of(&frames);
+            let ncuts = rng.range(1, 5);
+            let mut cuts: Vec<usize> = (0..ncuts).map(|_| rng.range(1, stream.len() - 1)).collect();
+            cuts.sort();
+            cuts.dedup();
+            let sizes = if rng.chance(1, 2) { vec![] } else { vec![rng.range(100, 3000); 40] };
+            let mode = rng.range(1, 3) as u8;
+            let evs = events_for(&stream, &cuts, mode, frames.len(), &mut rng);
+            cases.push(Case { kind: kind.to_string(), frames, sizes, evs });
+        }
+    }
+
     // (c) random bursts of 1..6 frames, random cuts, random read sizes, random poll patterns.
     let nrand = if thorough { 4000 } else { 250 };
     for kind in &kinds {
